@@ -197,6 +197,22 @@ def main(out_v, out_json):
     pconn = fn_body(subsrc, r"async fn peer_connected\(")
     g.put("sub_replay_unwraps", None if pconn is None else len(re.findall(r"\.unwrap\(\)", pconn)), "syntax")
 
+    # shutdown paths (C17)
+    def shut(src):
+        return fn_body(src, r"fn shutdown\(&self\)")
+    for nm, path in (("generic", "src/backend.rs"), ("rep", "src/rep.rs"), ("sub", "src/sub.rs"), ("xpub", "src/xpub.rs")):
+        b = shut(rd(path))
+        g.put(nm + "_shutdown_clears_queue", 1 if b and re.search(r"lock\(\)\.clear\(\)", b) else 0, "syntax")
+        g.put(nm + "_shutdown_clears_table", 1 if b and re.search(r"\.clear_sync\(\)", b) else 0, "syntax")
+    fqsrc = rd("src/fair_queue.rs")
+    clr = fn_body(fqsrc, r"pub fn clear\(&mut self\)")
+    g.put("queue_clear_drops_streams", 1 if clr and re.search(r"self\.streams\.clear\(\)", clr) else 0, "syntax")
+    drops = 0
+    for path in ("src/pull.rs", "src/push.rs", "src/dealer.rs", "src/router.rs", "src/rep.rs", "src/req.rs", "src/pub.rs", "src/sub.rs", "src/xpub.rs"):
+        if re.search(r"impl Drop for \w+Socket \{\s*fn drop\(&mut self\) \{\s*self\.backend\.shutdown\(\);", rd(path)):
+            drops += 1
+    g.put("sockets_with_drop_shutdown", drops, "syntax")
+
     # pinned asynchronous-codec
     lock = rd("Cargo.lock")
     mv = re.search(r'name = "asynchronous-codec"\nversion = "([^"]+)"', lock)
